@@ -14,6 +14,11 @@ var c06Stateful = []string{
 	"[foo]: /url \"t\"\n\n[foo]\n", "[foo]\n", "# Title\n\n# Title\n", "# Title\n", "text[^1]\n\n[^1]: note\n", "again[^1]\n", "[^1]: orphan\n",
 	"he said \"never mind\n", "6 feet 2\" tall\n", "'tis 'quoted' and \"double\"\n", "a -- b --- c...\n",
 	"|a|b|\n|:-|-:|\n|c|d|\n", "|x|\n|:-:|\n", "```go\ncode\n```\n", "``` rust extra\nx\n```\n", "- [ ] a\n- [x] b\n", "t\n: d\n", "~~s~~ http://a.b\n",
+	// one family of HTML tag names in every position where the block kind (6 or 7) or the case of
+	// the name matters, so that a name met in one position is met again in another
+	"<Foo> x\n", "para\n<Foo>\nmore\n", "</Foo a=\"b\">\nx\n", "<Foo>\n*x*\n\ny\n", "para\n</Foo>\nmore\n", "<foo>\nx\n", "para\n<foo>\nmore\n",
+	"<DIV> x\n", "para\n<DIV>\nmore\n", "<Div\n", "para\n<Div>\nmore\n", "<MyPanel k=v>\n", "para\n<MyPanel>\nmore\n", "para\n<sCript>\nmore\n", "<sCript> x\n",
+	"<Foo>\n", "- <Foo> x\n- para\n  <Foo>\n", "> <Foo> x\n\npara\n<Foo>\n",
 	"\ufeff# Title\n", "\ufefftext\n", "# h {#custom}\n\n# h\n", "![i][foo]\n\n[foo]: /img\n", "<div>\nraw\n</div>\n", "*a **b** c*\n", "> q\n> r\n", "1. x\n2. y\n",
 }
 
@@ -26,6 +31,10 @@ func runC06(c *Ctx) {
 		nHist, histLen = 6000, 30
 	}
 	corp := corpusDocs()
+	// the first output seen in this process for (configuration, document): no later conversion
+	// of the same document, on a used or a fresh instance, may differ from it (state kept in
+	// package-level variables is shared by fresh instances too)
+	firstOut := map[string][]byte{}
 	pick := func() []byte {
 		switch c.R.Intn(6) {
 		case 4:
@@ -113,6 +122,14 @@ func runC06(c *Ctx) {
 				fresh, e, p := convertSafe(cf.Build(), d)
 				if e != "" || p != "" {
 					continue
+				}
+				fk := cf.Name() + "\x00" + string(d)
+				if f0, seen := firstOut[fk]; !seen {
+					if len(firstOut) < 200000 {
+						firstOut[fk] = fresh
+					}
+				} else if !bytes.Equal(f0, fresh) {
+					c.Violate("process-state-dependence", in, fmt.Sprintf("a fresh instance gives %.250q for %.120q; the first conversion of the same document in this process gave %.250q", fresh, d, f0), "process-state-dependence")
 				}
 				if !bytes.Equal(got, fresh) {
 					kind := "history-dependence"
